@@ -138,6 +138,8 @@ type FnCtx struct {
 	stringsSeen  map[string]bool
 	inputTerms   []inputTerm
 	retSite      string
+	baseElem     map[string]types.Type
+	baseKeySort  map[string]string
 	recordBases  map[string]string
 	revealed     map[string]bool
 	opaqueDeps   map[string][]string
@@ -221,8 +223,57 @@ func (c *FnCtx) h(st *State, base, sort string) string {
 	}
 	c.heapSort[base] = sort
 	n := c.heapName(base, st.epoch)
-	c.declare(n, sort)
+	if !c.declSet[n] {
+		c.declare(n, sort)
+		if base != "alloc" {
+			al := c.heapName("alloc", st.epoch)
+			c.declare(al, "(Array Int Bool)")
+			if ax := c.closureAxiom(n, base, al); ax != "" {
+				c.decls = append(c.decls, "(assert "+ax+")")
+			}
+		}
+	}
 	return n
+}
+
+// closureAxiom: references stored in a well-formed heap array point to allocated objects (w.r.t. alloc term al).
+func (c *FnCtx) closureAxiom(arr, base, al string) string {
+	t, ok := c.baseElem[base]
+	if !ok {
+		return ""
+	}
+	switch t.Underlying().(type) {
+	case *types.Pointer, *types.Map, *types.Slice, *types.Interface:
+	default:
+		return ""
+	}
+	inv := func(term string) string {
+		switch t.Underlying().(type) {
+		case *types.Pointer, *types.Map:
+			return or(eq(term, "0"), and("(> "+term+" 0)", sel(al, term)))
+		case *types.Slice:
+			b := "(sbase " + term + ")"
+			return and("(>= (soff "+term+") 0)", "(>= (slen "+term+") 0)", "(<= (slen "+term+") (scap "+term+"))",
+				or(and(eq(b, "0"), eq("(scap "+term+")", "0")), and("(> "+b+" 0)", sel(al, b))))
+		case *types.Interface:
+			return or(eq(term, "inil"), and("((_ is ibox) "+term+")", or(eq("(iref "+term+")", "0"), and("(> (iref "+term+") 0)", sel(al, "(iref "+term+")"))),
+				or(eq("(sbase (isl "+term+"))", "0"), sel(al, "(sbase (isl "+term+"))"))))
+		}
+		return "true"
+	}
+	switch {
+	case strings.HasPrefix(base, "F!"), strings.HasPrefix(base, "C!"):
+		return "(forall ((r Int)) (! (=> (select " + al + " r) " + inv("(select "+arr+" r)") + ") :pattern ((select " + arr + " r))))"
+	case strings.HasPrefix(base, "E!"):
+		return "(forall ((r Int) (i Int)) (! (=> (select " + al + " r) " + inv("(select (select "+arr+" r) i)") + ") :pattern ((select (select " + arr + " r) i))))"
+	case strings.HasPrefix(base, "MV!"):
+		ks := c.baseKeySort[base]
+		if ks == "" {
+			return ""
+		}
+		return "(forall ((r Int) (k " + ks + ")) (! (=> (select " + al + " r) " + inv("(select (select "+arr+" r) k)") + ") :pattern ((select (select " + arr + " r) k))))"
+	}
+	return ""
 }
 
 func (c *FnCtx) setH(st *State, base, sort, term string) {
@@ -246,20 +297,26 @@ func (c *FnCtx) fieldArr(structT types.Type, field string) (string, string) {
 	if ft == nil {
 		panic(unsupported{"no field " + field})
 	}
-	return "F!" + c.tt.key(structT) + "!" + field, "(Array Int " + c.tt.sortOf(ft) + ")"
+	bn := "F!" + c.tt.key(structT) + "!" + field
+	c.baseElem[bn] = ft
+	return bn, "(Array Int " + c.tt.sortOf(ft) + ")"
 }
 
 func (c *FnCtx) elemsArr(elem types.Type) (string, string) {
+	c.baseElem["E!"+c.tt.key(elem)] = elem
 	return "E!" + c.tt.key(elem), "(Array Int (Array Int " + c.tt.sortOf(elem) + "))"
 }
 
 func (c *FnCtx) cellArr(elem types.Type) (string, string) {
+	c.baseElem["C!"+c.tt.key(elem)] = elem
 	return "C!" + c.tt.key(elem), "(Array Int " + c.tt.sortOf(elem) + ")"
 }
 
 func (c *FnCtx) mapArrs(m *types.Map) (dom, domSort, val, valSort string) {
 	k := c.tt.key(m.Key()) + "!" + c.tt.key(m.Elem())
 	ks := c.tt.sortOf(m.Key())
+	c.baseElem["MV!"+k] = m.Elem()
+	c.baseKeySort["MV!"+k] = ks
 	return "MD!" + k, "(Array Int (Array " + ks + " Bool))", "MV!" + k, "(Array Int (Array " + ks + " " + c.tt.sortOf(m.Elem()) + "))"
 }
 
@@ -366,7 +423,7 @@ func (c *FnCtx) oblige(st *State, kind, label, goal string, pos token.Pos, text 
 			return
 		}
 	}
-	if parts := splitAnd(goal); len(parts) > 1 && kind != "vacuity" {
+	if parts := splitAnd(goal); len(parts) > 1 && kind != "vacuity" && kind != "reach" {
 		for i, p := range parts {
 			c.oblige(st, kind, fmt.Sprintf("%s.%d", label, i+1), p, pos, text)
 		}
